@@ -13,7 +13,7 @@ Static clauses (necessary conditions; value equality itself is not decided):
 import re
 
 from .. import mir, e1_panic as e1, discharge
-from ..common import CallGraph, table, is_derive, site_in_derive, is_trait_call
+from ..common import CallGraph, table, is_derive, site_in_derive, is_trait_call, with_closures
 from ..engine import Result, ok, finding, assumption, where
 from ..facts import BrokenCheck
 
@@ -324,6 +324,85 @@ def drop_rule(F, res):
         res.add([ok("DROP", key, w, "the None edge of try_add does not reach a removal")])
 
 
+def optional_rule(F, res, rule="OPTIONAL"):
+    """OPTIONAL: the only outputs the compiler may leave out are *optional* ones that carry *nothing*.  The predicate of every
+    `filter` on the way from tx.outputs into the body (helpers inlined) is turned into its truth table (E17); each row that
+    drops the output must have the output's `optional` flag set, every quantity it tests zero and every container it tests
+    empty, and must have tested all the value atoms the predicate tests for that shape of value (a row that decides after
+    looking at the lovelace only, while another row of the same shape looks at the native assets, drops value).  A predicate
+    outside the recognised fragment is not decided."""
+    from .. import roles, truthtable
+    tbp = roles.builder_of(F, "tx3_cardano", "::TransactionBody")
+    try:
+        feeder = F.fns[roles.feeder_of(F, tbp, "::TransactionBody", "outputs")]
+    except BrokenCheck:
+        return
+    bodies = with_closures(F, feeder)
+    # is component .0 of the filtered element the block's `optional` flag?
+    flag_is_optional = False
+    for b in bodies:
+        du = mir.DefUse(b)
+        for bi, si, s in mir.stmts(b):
+            rv = s["rv"]
+            if rv["k"] == "agg" and "tuple" in rv and rv["ops"] and b["locals"][s["lhs"]["l"]].startswith("(bool,"):
+                if any(o.kind == "arg" and o.proj and o.proj[-1] == ".optional" for o in mir.provenance(b, du, rv["ops"][0])):
+                    flag_is_optional = True
+    n = 0
+    for b in bodies:
+        for bi, t in mir.calls(b):
+            if not (t.get("callee") or "").endswith("Iterator::filter"):
+                continue
+            for fr in t.get("fnrefs") or []:
+                g = F.fns.get(fr)
+                if g is None or g["locals"][0] != "bool" or t["args"][-1:] == [] :
+                    continue
+                # the predicate is the filter's own closure argument
+                if not any(o.kind == "agg" and o.rv.get("closure") == fr for o in mir.provenance(b, mir.DefUse(b), t["args"][1])):
+                    continue
+                # selections of chain-specific ad-hoc directives by name are not on the path of the template's outputs
+                from ..common import ITER_PASS
+                if any(o.kind == "arg" and ".adhoc" in o.proj for o in mir.provenance(b, mir.DefUse(b), t["args"][0], transparent_extra=tuple(ITER_PASS) + ("std::iter::Iterator::map", "core::slice::<impl [T]>::iter", "std::ops::Deref::deref", "std::iter::IntoIterator::into_iter"))):
+                    continue
+                n += 1
+                key = "%s|filter predicate drops only empty optional outputs" % feeder["path"]
+                w = where(g)
+
+                def want(t2, callee):
+                    return callee["crate"] == g["crate"] and not callee.get("impl_trait") and len(callee["blocks"]) <= 200
+                body = mir.inline_calls(F, g, want=want, depth=3)
+                rows = truthtable.table(body)
+                dropped = [r for r in rows if r[2] is False]
+                if not rows or any(r[3] for r in dropped) or any(r[2] is None for r in rows):
+                    res.add([assumption(rule, key, w, "the predicate is outside the recognised fragment (%d paths, %d opaque): not decided" % (len(rows), sum(1 for r in rows if r[3])))])
+                    continue
+                if not dropped:
+                    res.add([ok(rule, key, w, "the predicate never drops an output")])
+                    continue
+                by_ctx = {}
+                for a, ctx, r, op in rows:
+                    by_ctx.setdefault(ctx, set()).update(k for k in a if k[0] in ("positive", "empty"))
+                bad = []
+                for a, ctx, r, op in dropped:
+                    flags = [(k, v) for k, v in a.items() if k[0] == "flag" and k[1].startswith("arg")]
+                    if not flags or not all(v for _, v in flags):
+                        bad.append("an output that is not optional can be dropped")
+                    for k, v in a.items():
+                        if k[0] == "positive" and v:
+                            bad.append("an output is dropped although a quantity it carries (%s) is positive" % k[1])
+                        if k[0] == "empty" and not v:
+                            bad.append("an output is dropped although %s is not empty" % k[1])
+                    missing = by_ctx[ctx] - set(a)
+                    if missing:
+                        bad.append("an output is dropped after looking at only part of its value (%s not looked at)" % ", ".join(sorted(m[1] for m in missing)))
+                if bad:
+                    res.add([finding(rule, key, w, "%s: the value in it disappears from the transaction (truth table of the predicate: %d rows, %d dropping)" % (sorted(set(bad))[0], len(rows), len(dropped)))])
+                elif not flag_is_optional:
+                    res.add([assumption(rule, key, w, "the flag the predicate tests could not be traced to the block's `optional` field: not decided")])
+                else:
+                    res.add([ok(rule, key, w, "dropped only when optional and every tested quantity is zero / container empty (%d rows, %d dropping)" % (len(rows), len(dropped)))])
+    res.count("output filter predicates", n)
+
+
 def sub_identity(F, res):
     EXPR = "tx3_tir::model::v1beta0::Expression"
     f = F.fn("<%s as tx3_tir::reduce::Arithmetic>::sub" % EXPR)
@@ -428,6 +507,8 @@ def run(ctx):
     merge_rule(F, res, reach)
     floats(F, res, reach)
     defaulted(F, res, reach)
+    res.rule("OPTIONAL", "only optional outputs that carry nothing are left out (truth table of the filter predicate)")
+    optional_rule(F, res)
     # integers that leave the 64-bit range are encoded as CBOR bignums: the negative form carries -1 - n (rule shared with C09)
     from . import c09
     r3 = Result("C02")
